@@ -153,7 +153,9 @@ class ClassInfo(object):
     def method(self, name, nparams=None, pred=None):
         cands = self.methods.get(name, [])
         if nparams is not None:
-            cands = [m for m in cands if len(params_of(m)) == nparams]
+            sel = [m for m in cands if len(params_of(m)) == nparams]
+            # tolerate a changed signature when the name is not overloaded (a refactoring must not read as a tool failure)
+            cands = sel if (sel or len(cands) != 1) else cands
         if pred is not None:
             cands = [m for m in cands if pred(m)]
         if len(cands) != 1:
